@@ -274,8 +274,15 @@ def run(tier):
     n_launch = sum(1 for c in cases if c["class"] == "default-launch")
     n_imp = sum(1 for c in cases if c["expected"]["ok"] and "IMP" in as_dict(c["expected"]["env"]))
     n_layer = sum(1 for c in cases if c["plat"] == "p1" and len(as_dict(c["envs"])) >= 2)
-    if not (n_err and n_launch and n_imp and n_layer):
-        raise MachineryError("emitted family is degenerate: errors %d, launch copies %d, imports %d, layered %d" % (n_err, n_launch, n_imp, n_layer))
+    n_own = sum(1 for c in cases if c["expected"]["ok"] and c["class"] != "default-launch" and {"ROWN", "LIT"} <= set(as_dict(c["expected"]["env"])))
+    n_path = sum(1 for c in cases if c["interp"] and c["expected"]["ok"] and c["class"] in ("named", "none") and "PYTHONPATH" in as_dict(c["expected"]["env"]))
+    n_decoyplat = sum(1 for c in cases if c["plat"] == "default" and any(e.endswith("@p1") for e in as_dict(c["envs"])))
+    if not (n_err and n_launch and n_imp and n_layer and n_own and n_path and n_decoyplat):
+        raise MachineryError("emitted family is degenerate (a property antecedent is never true): errors %d, launch copies %d, imports %d, layered %d, "
+                             "own-before-launch %d, interpreter paths %d, p1 environments while default is selected %d" % (
+                                 n_err, n_launch, n_imp, n_layer, n_own, n_path, n_decoyplat))
+    chk.cov["witnesses"] = {"error": n_err, "launch_copy": n_launch, "imported": n_imp, "layered": n_layer, "own_before_launch": n_own,
+                            "interpreter_paths": n_path, "other_platform_decoys": n_decoyplat}
     results = execute(cases)
     for case, res in zip(cases, results):
         chk.evaluated((case["family"], case["plat"], case["sel"], case["spell"], case["interp"], json.dumps(case["envs"], sort_keys=True)))
